@@ -985,7 +985,7 @@ static const char *const required[] = {
     "D.state.builtin-then-caller.pending.bad-arose", "D.state.caller-then-builtin.pending.bad-arose",
     "D.state.caller-then-builtin.finished.in-range",
     "D.entry.insert.bad-arose", "D.entry.find.bad-arose", "D.entry.erase.bad-arose", "D.entry.rehash.bad-arose", "D.entry.foreach.bad-arose",
-    "D.entry.resize.bad-arose", "D.entry.shrink_to_fit.bad-arose", NULL
+    "D.entry.shrink_to_fit.bad-arose", NULL
 };
 static const struct vrt_harness H = { "hashrange", ncases, run_case, winit, wfini, required, 16 };
 int main(int argc, char **argv) { return vrt_main(argc, argv, &H); }
